@@ -205,6 +205,9 @@ func (c *Check) finish(verifDir string, t0 time.Time, seed int, onlyKey string) 
 	distinct := map[string]bool{}
 	for _, o := range c.Obls {
 		distinct[o.Rule+"|"+strings.SplitN(strings.TrimPrefix(o.Key, o.Rule+"|"), "#", 2)[0]] = true
+		if *flagV {
+			fmt.Printf("OBL ok=%v %s @%s :: %s\n", o.OK, o.Key, o.Where, o.Desc)
+		}
 		if o.OK {
 			discharged++
 			continue
